@@ -191,6 +191,11 @@ func (p *Conn) checkProxyHeader() error {
 		return err
 	}
 
+	// "PROXY UNKNOWN" (v1) carries no address: keep those of the connection
+	if hdr.Version == 1 && hdr.TransportProtocol == UNSPEC {
+		return nil
+	}
+
 	// only TCP over IPv4/IPv6 is supported
 	if hdr.TransportProtocol != TCPv4 && hdr.TransportProtocol != TCPv6 {
 		p.Close()
